@@ -80,7 +80,7 @@ class Agg:
             self.words.add(r["word"])
         if runner.PINNED_BASE > r.get("idx", 0) >= runner.SYSTEMATIC_BASE:
             self.sys_total += 1
-            if r.get("word") == runner.systematic_words()[r["idx"] - runner.SYSTEMATIC_BASE]:
+            if r.get("word") == runner.systematic_words(8)[r["idx"] - runner.SYSTEMATIC_BASE]:
                 self.sys_exact += 1
         if r.get("aborted"):
             self.aborts[r["aborted"]] = self.aborts.get(r["aborted"], 0) + 1
@@ -161,12 +161,12 @@ def run_batch(prop: str, tier: str, seed: int, n_runs: int | None, budget_s: flo
     deadline = t0 + budget_s if budget_s else None
     total = n_runs if n_runs else 10**9
     pending = set()
-    # systematic layer (C02, both tiers): every {E,U,R}-word up to length 6, once
+    # systematic layer (C02): every {E,U,R}-word up to length 6 (quick) / 8 (thorough), once
     sys_left = []
     if prop in runner.PINNED:
         sys_left = [(runner.PINNED_BASE, len(runner.PINNED[prop]))]
     if prop == "C02":
-        n_words = len(runner.systematic_words())
+        n_words = len(runner.systematic_words(runner.sys_len(tier)))
         sys_left = [(runner.SYSTEMATIC_BASE + i, min(CHUNK * 4, n_words - i)) for i in range(0, n_words, CHUNK * 4)]
     with cf.ProcessPoolExecutor(max_workers=jobs, mp_context=ctx) as ex:
         def submit():
